@@ -292,7 +292,17 @@ def _run_hyp(suite, tier, n, seed_val, known, stats):
         raise
     except hypothesis.errors.HypothesisException as e:
         if 'v' in last and isinstance(e, hypothesis.errors.Flaky):
-            # the oracle is not a pure function of the case: harness problem
+            # the verdict changed between two executions of one case.  Re-run the recorded failing case once
+            # more from a clean suite state: if it fails again it is reported (a real defect may well be
+            # history dependent); otherwise the oracle is not a pure function of the case: harness problem
+            try:
+                suite.teardown()
+                suite.setup()
+                execute(suite, last['v']['case'], known, None)
+            except Violation as v2:
+                return {'case': last['v']['case'], 'kind': v2.kind, 'detail': v2.detail, 'index': -1}
+            except Exception:
+                pass
             raise HarnessError('flaky case (non-deterministic verdict): %s; last=%s'
                                % (e, core.dumps(last['v'])[:2000]))
         raise HarnessError('hypothesis error %s: %s' % (type(e).__name__, e))
